@@ -329,7 +329,13 @@ def write_evidence(prop, mod, tier, seed, merged, wall, nviol, level=None):
               level=level or mod.LEVEL, coverage=cov,
               assumptions=list(getattr(mod, 'ASSUMPTIONS', [])),
               wall_s=round(wall, 2), violations=int(nviol))
-    path = os.path.join(root, 'evidence', prop + '.json')
+    edir = os.path.join(root, 'evidence')
+    if os.path.realpath(libstate.repo_src()) != '/repo/src':
+        # runs against a scratch copy (mutants, proposed fixes) never
+        # overwrite the evidence of /repo
+        edir = os.path.join(edir, 'scratch')
+        os.makedirs(edir, exist_ok=True)
+    path = os.path.join(edir, prop + '.json')
     with open(path + '.tmp', 'w') as fo:
         json.dump(ev, fo, indent=1, sort_keys=True, default=str)
     os.replace(path + '.tmp', path)
